@@ -601,6 +601,12 @@ func niWidth(c *Ctx, a *flAgg) {
 					case *ssa.Call:
 						if cal := v.Call.StaticCallee(); cal != nil && cal.Name() == "formatCall" {
 							okSrc = true
+							// the frame measured is the one the loop is at
+							if len(v.Call.Args) == 2 {
+								if ia, ok := v.Call.Args[1].(*ssa.IndexAddr); ok && !isLoopCounter(ia.Index) {
+									other = "the frame measured is not the frame of the current iteration (index " + ia.Index.Name() + " is not the loop counter)"
+								}
+							}
 							continue
 						}
 						other = v.String()
@@ -633,7 +639,94 @@ func niWidth(c *Ctx, a *flAgg) {
 }
 
 // niWriters: per element: filter/match on the printed header, then header and stack.
+// niDispatch (NI-all/processInner): what a snapshot is rendered with: a race
+// report goroutine by goroutine, anything else aggregated into buckets with
+// the similarity asked for; to the console unless an HTML file was asked for.
+// Decided on every path of processInner from its literals IsRace / html == "".
+func niDispatch(c *Ctx, a *flAgg) {
+	fn := c.L.Func("internal", "", "processInner")
+	if fn == nil {
+		return
+	}
+	exprHome = fn.Pkg.Pkg
+	x := &SPE{Fn: fn, MaxVisits: 2}
+	x.Explore()
+	n, bad := 0, ""
+	for _, p := range x.Paths {
+		if p.Term != "return" || len(p.Results) != 1 {
+			continue
+		}
+		race, haveRace, console, haveHTML := false, false, false, false
+		for _, lt := range p.Lits {
+			at := lt.Atom
+			if at.Op == OpCall && at.Fn != nil && at.Fn.Name() == "IsRace" {
+				race, haveRace = lt.Pol, true
+			}
+			if at.Op == OpBin && at.Tok == token.EQL && len(at.Args) == 2 && at.Args[0].Op == OpParam && at.Args[0].Name == "html" {
+				if k, ok := constStr(at.Args[1]); ok && k == "" {
+					console, haveHTML = lt.Pol, true
+				}
+			}
+		}
+		if !haveRace || !haveHTML {
+			bad = "a path renders without having decided race/console (" + litsString(p) + ")"
+			continue
+		}
+		n++
+		r := p.Results[0]
+		want := ""
+		switch {
+		case console && race:
+			want = "writeGoroutinesToConsole"
+		case console && !race:
+			want = "writeBucketsToConsole"
+		default:
+			want = "toHTML"
+		}
+		// the wanted writer is called, once, and no other one (its result may be
+		// returned or, for a writer without result, nil)
+		calls := map[string]int{}
+		var wcall *Expr
+		for _, ev := range p.Events {
+			if ev.Kind == EvCall && ev.Val.Op == OpCall && ev.Val.Fn != nil {
+				switch nm := ev.Val.Fn.Name(); nm {
+				case "writeGoroutinesToConsole", "writeBucketsToConsole", "toHTML":
+					calls[nm]++
+					if nm == want {
+						wcall = ev.Val
+					}
+				}
+			}
+		}
+		if r.Op == OpCall && r.Fn != nil && r.Fn.Name() == want && wcall == nil {
+			wcall = r
+			calls[want]++
+		}
+		if wcall == nil || calls[want] != 1 || len(calls) != 1 {
+			bad = fmt.Sprintf("with race=%v and console=%v the snapshot is not rendered by exactly one call of %s (calls: %v, result %s)", race, console, want, calls, r.String())
+			continue
+		}
+		// buckets are the aggregation of this snapshot; goroutines the snapshot itself
+		rs := wcall.String()
+		if !race && !strings.Contains(rs, ".Aggregate(") {
+			bad = "buckets are rendered from something else than the aggregation of the snapshot: " + rs
+		}
+		if race && strings.Contains(rs, ".Aggregate(") {
+			bad = "a race report is aggregated: " + rs
+		}
+	}
+	switch {
+	case bad != "":
+		a.bad("NI-all", "processInner/dispatch", bad+": a snapshot is rendered by the wrong writer, or not at all", fn.Pos())
+	case n == 0:
+		a.und("NI-all", "processInner/dispatch", "no rendering path found", fn.Pos())
+	default:
+		a.ok("NI-all", "processInner/dispatch", fmt.Sprintf("a race report is rendered goroutine by goroutine, anything else as buckets, to the console iff no HTML file was asked for (%d paths)", n), fn.Pos())
+	}
+}
+
 func niWriters(c *Ctx, a *flAgg) {
+	niDispatch(c, a)
 	for _, w := range []struct{ name, header string }{{"writeBucketsToConsole", "BucketHeader"}, {"writeGoroutinesToConsole", "GoroutineHeader"}} {
 		fn := c.MustFunc(a.obls, "NI-split", "internal", "", w.name)
 		if fn == nil {
@@ -663,6 +756,16 @@ func niWriters(c *Ctx, a *flAgg) {
 			case "out":
 				outN = p.Name()
 			}
+		}
+		// every element gets its turn: the loop is left early only with the
+		// error of a failed write
+		early := leftEarly(seg.Paths, l, func(p *Path) bool {
+			return len(p.Results) == 1 && !p.Results[0].isNilConst() && (strings.Contains(p.Results[0].String(), "WriteString(") || strings.Contains(p.Results[0].String(), ".Write(") || strings.Contains(p.Results[0].String(), "Fprint"))
+		})
+		if len(early) > 0 {
+			a.bad("NI-all", w.name+"/all-elements", "the loop over the elements is left before the last one for a reason other than a failed write ("+litsString(early[0])+"): the blocks behind it are not shown", pathPos(early[0], fn))
+		} else {
+			a.ok("NI-all", w.name+"/all-elements", "the loop ends only after the last element or with the error of a failed write", fn.Pos())
 		}
 		for _, p := range seg.Paths {
 			if !(p.Term == "stop" && p.End == l.Header) {
@@ -1284,6 +1387,51 @@ func niWidthMax(c *Ctx, a *flAgg) {
 					okMax, why = false, phiName+" is replaced by a measured length that was not found larger ("+litsString(p)+")"
 				}
 			}
+			// the running maxima kept in the fields of a local struct (w.src,
+			// w.pkg) instead of two locals: the stores take the place of the phis
+			isMeasured := func(r *Expr) string {
+				if r != nil && r.Op == OpBuiltin && r.Name == "len" {
+					if strings.Contains(r.String(), "formatCall(") {
+						return "src"
+					}
+					if strings.HasSuffix(r.String(), ".Func.DirName)") {
+						return "pkg"
+					}
+				}
+				return ""
+			}
+			for _, ev := range p.Events {
+				if ev.Kind != EvStore || ev.Val == nil || ev.Val.Type == nil || !isIntType(ev.Val.Type) {
+					continue
+				}
+				cell, _ := stripAddr(ev.Addr.String())
+				if !reFieldCell.MatchString(cell) {
+					continue
+				}
+				col := isMeasured(ev.Val)
+				if col == "" {
+					okMax, why = false, cell+" is set to "+ev.Val.String()
+					continue
+				}
+				if prev, ok := colOf[cell]; ok && prev != col {
+					okMax, why = false, cell+" is fed by both columns"
+				}
+				colOf[cell] = col
+				gt, ok1 := p.lit("(" + cell + " < " + ev.Val.String() + ")")
+				lt2, ok2 := p.lit("(" + ev.Val.String() + " < " + cell + ")")
+				if !((ok1 && gt) || (ok2 && !lt2)) {
+					okMax, why = false, cell+" is replaced by a measured length that was not found larger ("+litsString(p)+")"
+				}
+			}
+			for _, lt := range p.Lits {
+				at := lt.Atom
+				if !lt.Pol || at.Op != OpBin || at.Tok != token.LSS || !reFieldCell.MatchString(at.Args[0].String()) || isMeasured(at.Args[1]) == "" {
+					continue
+				}
+				if nv := p.Cells["&"+at.Args[0].String()]; nv == nil || nv.String() != at.Args[1].String() {
+					okMax, why = false, "a length found larger than "+at.Args[0].String()+" does not replace it"
+				}
+			}
 			// a larger measured length must replace the maximum
 			for _, lt := range p.Lits {
 				at := lt.Atom
@@ -1329,6 +1477,20 @@ func niWidthMax(c *Ctx, a *flAgg) {
 					}
 					if ph, ok := ret.Results[1].(*ssa.Phi); ok {
 						n1 = ph.Comment
+					}
+					// fields of a local struct
+					fieldName := func(v ssa.Value) string {
+						if ld, ok := v.(*ssa.UnOp); ok && ld.Op == token.MUL {
+							if fa, ok := ld.X.(*ssa.FieldAddr); ok {
+								if al, ok := fa.X.(*ssa.Alloc); ok {
+									return al.Comment + "." + addrLast(fa)
+								}
+							}
+						}
+						return ""
+					}
+					if n0 == "" && n1 == "" {
+						n0, n1 = fieldName(ret.Results[0]), fieldName(ret.Results[1])
 					}
 					okOrder = n0 == src && n1 == pkg && src != ""
 				}
@@ -1515,3 +1677,38 @@ func niWidthHelper(fn *ssa.Function) (niHelper, bool) {
 }
 
 var reCallFormat = regexp.MustCompile(`^%[sv]:%[dv]$`)
+
+// isLoopCounter: v is the induction variable of a counted or range loop
+// (phi with a +1 back edge), possibly through a conversion.
+func isLoopCounter(v ssa.Value) bool {
+	if ex, ok := v.(*ssa.Extract); ok {
+		_, isNext := ex.Tuple.(*ssa.Next)
+		return isNext
+	}
+	// go/ssa's range over a slice: index = rangeindex + 1, rangeindex = phi(-1, index)
+	if bo, ok := v.(*ssa.BinOp); ok && bo.Op == token.ADD {
+		if k, isC := bnConst(bo.Y); isC && k == 1 {
+			if phi, ok := bo.X.(*ssa.Phi); ok {
+				for _, e := range phi.Edges {
+					if e == v {
+						return true
+					}
+				}
+			}
+		}
+	}
+	phi, ok := v.(*ssa.Phi)
+	if !ok {
+		return false
+	}
+	for _, e := range phi.Edges {
+		if bo, ok := e.(*ssa.BinOp); ok && bo.Op == token.ADD && bo.X == ssa.Value(phi) {
+			if k, isC := bnConst(bo.Y); isC && k == 1 {
+				return true
+			}
+		}
+	}
+	return false
+}
+
+var reFieldCell = regexp.MustCompile(`^[A-Za-z_][A-Za-z0-9_]*\.[A-Za-z_][A-Za-z0-9_]*$`)
